@@ -68,8 +68,10 @@ CONSTANTS W, H,        \* value cells of S and T: columns 1..W, rows 1..H
 VARIABLES sc,          \* index into Scenarios
           vals,        \* <<c, r>> -> current value of the value cells of S
           last,        \* the action that led here [k, c, r, v, old, q]
-          stb          \* Settable(sc): fixed by Init (kept in the state: computed once)
-vars == <<sc, vals, last, stb>>
+          stb,         \* Settable(sc): fixed by Init (kept in the state: computed once)
+          ans          \* Answers(sc, vals): the allowed answers of every cell, as rule
+                       \* indices (kept in the state: computed once per SetValue)
+vars == <<sc, vals, last, stb, ans>>
 
 MaxRow == 1048576
 MaxCol == 16384
@@ -214,16 +216,20 @@ RulesOf(s, sh) == IF sh = "S" THEN Scenarios[s].rules ELSE Scenarios[s].trules
 ---------------------------------------------------------------------------
 (* queries: [k, sh, rect, items]  k = "cell" (rect is the cell), "rect",   *)
 (* "list" (items index Queries; cells and rectangles only)                 *)
+\* A is the table of the answers of all cells: <<sheet, c, r>> -> AllowedIdx(..)
+AllCells == {<<"S", p[1], p[2]>> : p \in (1..DC) \X (1..H)} \cup {<<"T", p[1], p[2]>> : p \in Grid}
+Answers(s, g) == [t \in AllCells |-> AllowedIdx(RulesOf(s, t[1]), t[1], t[2], t[3], g)]
+
 SheetOf(q) == IF q.sh = "" THEN Active ELSE q.sh
-CellExp(s, g, sh, c, r) == Allowed(RulesOf(s, sh), sh, c, r, g)
-RectExp(s, g, sh, q) ==
+CellExp(s, A, sh, c, r) == {Fmts(RulesOf(s, sh), a) : a \in A[<<sh, c, r>>]}
+RectExp(s, A, sh, q) ==
   [i \in 1..(q[4] - q[2] + 1) |->
-     [j \in 1..(q[3] - q[1] + 1) |-> CellExp(s, g, sh, q[1] + j - 1, q[2] + i - 1)]]
-OneExp(s, g, q) == IF q.k = "cell" THEN CellExp(s, g, SheetOf(q), q.rect[1], q.rect[2])
-                   ELSE RectExp(s, g, SheetOf(q), q.rect)
-Expected(s, g, q) == IF q.k = "list"
-                     THEN [i \in 1..Len(q.items) |-> OneExp(s, g, Queries[q.items[i]])]
-                     ELSE OneExp(s, g, q)
+     [j \in 1..(q[3] - q[1] + 1) |-> CellExp(s, A, sh, q[1] + j - 1, q[2] + i - 1)]]
+OneExp(s, A, q) == IF q.k = "cell" THEN CellExp(s, A, SheetOf(q), q.rect[1], q.rect[2])
+                   ELSE RectExp(s, A, SheetOf(q), q.rect)
+Expected(s, A, q) == IF q.k = "list"
+                     THEN [i \in 1..Len(q.items) |-> OneExp(s, A, Queries[q.items[i]])]
+                     ELSE OneExp(s, A, q)
 
 ---------------------------------------------------------------------------
 (* which value cells of S an answer can depend on                          *)
@@ -259,6 +265,7 @@ Init == /\ sc \in 1..Len(Scenarios)
         /\ vals = InitGrid
         /\ last = NoAct
         /\ stb = Settable(sc)
+        /\ ans = Answers(sc, vals)
 
 SetValue(p, v) ==
   /\ p \in stb
@@ -266,11 +273,12 @@ SetValue(p, v) ==
   /\ Changed([vals EXCEPT ![p] = v]) <= MaxChanged
   /\ vals' = [vals EXCEPT ![p] = v]
   /\ last' = [k |-> "set", c |-> p[1], r |-> p[2], v |-> v, old |-> vals[p], q |-> 0]
+  /\ ans' = Answers(sc, vals')
   /\ UNCHANGED <<sc, stb>>
 
 Query(i) ==
   /\ last' = [k |-> "query", c |-> 0, r |-> 0, v |-> Z, old |-> Z, q |-> i]
-  /\ UNCHANGED <<sc, vals, stb>>
+  /\ UNCHANGED <<sc, vals, stb, ans>>
 
 Next == \/ \E p \in Grid, v \in SetPool : SetValue(p, v)
         \/ \E i \in 1..Len(Queries) : Query(i)
@@ -299,13 +307,12 @@ QueryOK(q) == /\ q.k \in {"cell", "rect", "list"} /\ q.sh \in {"", "S", "T"}
 TypeOK == /\ sc \in 1..Len(Scenarios)
           /\ RulesOK(Scenarios[sc].rules) /\ RulesOK(Scenarios[sc].trules)
           /\ \A i \in 1..Len(Queries) : QueryOK(Queries[i])
-          /\ DOMAIN vals = Grid /\ stb = Settable(sc)
+          /\ DOMAIN vals = Grid /\ DOMAIN ans = AllCells
           /\ last.k \in {"init", "set", "query"}
           /\ Changed(vals) <= MaxChanged
 
 ---------------------------------------------------------------------------
 (* laws, checked on the definitions                                        *)
-AllCells == {<<"S", p[1], p[2]>> : p \in (1..DC) \X (1..H)} \cup {<<"T", p[1], p[2]>> : p \in Grid}
 \* the cells some rule applies to (the others have the empty answer by definition)
 Ruled(s) == {t \in AllCells : AppSet(RulesOf(s, t[1]), t[2], t[3]) # {}}
 PosIn(s, x) == CHOOSE i \in 1..Len(s) : s[i] = x
@@ -316,7 +323,7 @@ Subsequence ==
   \A t \in Ruled(sc) :
     LET rules == RulesOf(sc, t[1])
         idx == Sorted(rules, t[2], t[3])
-    IN \A a \in AllowedIdx(rules, t[1], t[2], t[3], vals) :
+    IN \A a \in ans[t] :
          /\ Range(a) \subseteq AppSet(rules, t[2], t[3])
          /\ \A i, j \in 1..Len(a) : i < j =>
               /\ PosIn(idx, a[i]) < PosIn(idx, a[j])
@@ -326,7 +333,7 @@ Subsequence ==
 StopEnds ==
   \A t \in Ruled(sc) :
     LET rules == RulesOf(sc, t[1])
-    IN \A a \in AllowedIdx(rules, t[1], t[2], t[3], vals) :
+    IN \A a \in ans[t] :
          \A i \in 1..Len(a) : rules[a[i]].stop => i = Len(a)
 
 \* the walk, said without recursion: a rule is in the answer iff it is
@@ -389,7 +396,7 @@ Rev(s) == IF s = <<>> THEN <<>> ELSE Rev(Tail(s)) \o <<Head(s)>>
 FileOrder ==
   \A t \in Ruled(sc) :
     Allowed(Rev(RulesOf(sc, t[1])), t[1], t[2], t[3], vals)
-      = Allowed(RulesOf(sc, t[1]), t[1], t[2], t[3], vals)
+      = {Fmts(RulesOf(sc, t[1]), a) : a \in ans[t]}
 
 \* without stop-if-true and without anything unjudged the answer is exactly
 \* the satisfied rules
@@ -408,8 +415,7 @@ Locality ==
   [][last'.k = "set" =>
        \A t \in Ruled(sc) :
          <<last'.c, last'.r>> \notin ReadsOf(sc, t[1], t[2], t[3]) =>
-           Allowed(RulesOf(sc, t[1]), t[1], t[2], t[3], vals')
-             = Allowed(RulesOf(sc, t[1]), t[1], t[2], t[3], vals)]_vars
+           ans'[t] = ans[t]]_vars
 
 ---------------------------------------------------------------------------
 (* export                                                                  *)
@@ -436,5 +442,5 @@ PrintEdge ==
     THEN [sc |-> sc, k |-> "set", grid |-> GridSeq(vals),
           c |-> last'.c, r |-> last'.r, v |-> last'.v, old |-> last'.old]
     ELSE [sc |-> sc, k |-> "query", grid |-> GridSeq(vals), q |-> last'.q,
-          exp |-> Expected(sc, vals, Queries[last'.q])]))
+          exp |-> Expected(sc, ans, Queries[last'.q])]))
 =============================================================================
